@@ -60,6 +60,10 @@ def corpus():
     cs.append(("corpus-move-by-value", ["buf 616200", "scs 0 0", "sbyval 0", "sbyvalm 0", "scopy 0", "sresize 0 5", "spush 1 97", "scmp 0 1"]))
     cs.append(("corpus-move-empty", ["snew", "smove 0", "sbyvalm 0", "smovea 1 0", "spush 0 97", "smove 0", "sresize 0 0", "scmp 0 2"]))
     cs.append(("corpus-move-wide", ["char 2", "traits", "buf 006101610000", "scs 0 0", "smove 0", "scopy 0", "spush 0 354", "sresize 0 1", "scmp 0 1"]))
+    # seeded: operator+(view) returning early for a buffer-less left operand AFTER allocating the scratch buffer (leak)
+    cs.append(("corpus-plus-nobuf-default", ["buf 6162", "snew", "splusv 0 P:0:0:2", "splusc 0 99", "splusv 0 N"]))
+    cs.append(("corpus-plus-nobuf-detached", ["buf 6162", "spl 0 0 2", "sdetach 0", "splusv 0 P:0:0:2", "splusv 0 S:0", "splusc 0 0"]))
+    cs.append(("corpus-plus-nobuf-wide", ["char 4", "buf 0000006100010061", "snew", "splusv 0 P:0:0:2", "splusc 0 97"]))
     # assorted
     cs.append(("corpus-self-alias", ["buf 616200", "scs 0 0", "sappv 0 S:0", "sassign 0 0", "sswap 0 0", "splusv 0 S:0", "scmp 0 1", "hs 0"]))
     cs.append(("corpus-null-views", ["eq N N", "ff N 0 0", "fl N 0", "ffo N N 0", "sub N 0 0", "sw N N", "ew N V:0", "num u8 N", "hv N",
@@ -86,6 +90,54 @@ def pair_case(cid, a, b, ct="1"):
     if ct != "1":
         ls = [l for l in ls if not l.startswith("scmpc")]
     return (cid, ls)
+
+
+def bufless_case(cid, a, ct="1"):
+    """Every binary operation with a string that owns NO buffer (default-constructed, and detached) as left AND as right
+    operand; a is the text of the ordinary operand.  Scratch-buffer leaks on such paths show as leak-block (C16)."""
+    w = WIDTH[ct]
+    la = len(a)
+    c = a[0] if a else 0x61
+    A = "P:0:0:%d" % la
+    ls = ([] if ct == "1" else ["char " + ct]) + ["buf " + hx(a, w), "buf " + hx(a + [0], w)]
+    n = [0]
+    def new(line):
+        ls.append(line); n[0] += 1; return n[0] - 1
+    d = new("snew")                               # default-constructed
+    t = new("spl 0 0 %d" % la); ls.append("sdetach %d" % t)    # detached
+    x = new("spl 0 0 %d" % la)                    # ordinary
+    for e in (d, t):
+        # operator+ : buffer-less left operand with view / char / own view / null view; buffer-less RIGHT operand (as view)
+        new("splusv %d %s" % (e, A)); new("splusc %d %d" % (e, c)); new("splusv %d S:%d" % (e, e)); new("splusv %d N" % e)
+        new("splusv %d S:%d" % (x, e)); new("splusv %d S:%d" % (e, x))
+        ls += ["scmp %d %d" % (e, x), "scmp %d %d" % (x, e), "scmp %d %d" % (e, e), "scmp %d %d" % (d, t), "hs %d" % e,
+               "hv S:%d" % e, "eq S:%d S:%d" % (e, x), "eq S:%d N" % e, "ssw %d %s" % (e, A), "sew %d S:%d" % (x, e),
+               "ssw %d S:%d" % (e, e), "ffo S:%d %s 0" % (e, A), "ffo %s S:%d 0" % (A, e), "sbyval %d" % e]
+        new("scopy %d" % e); new("smove %d" % e); new("sview S:%d" % e)
+        # assignment: buffer-less source, buffer-less destination, both
+        y = new("scopy %d" % x); ls.append("sassign %d %d" % (y, e))
+        z = new("snew"); ls.append("sassign %d %d" % (z, x))
+        z2 = new("snew"); ls.append("sassign %d %d" % (z2, e)); ls.append("smovea %d %d" % (z2, e))
+        # += / push_back / resize starting from a buffer-less string (each on a fresh one), and with a buffer-less right operand
+        for op in ("sappv %%d %s" % A, "sappc %%d %d" % c, "spush %%d %d" % c, "sresize %d 0", "sresize %%d %d" % (la + 1),
+                   "sappv %d N", "sappv %%d S:%d" % e):
+            f = new("snew")
+            if e == t:
+                ls.append("sdetach %d" % f)
+            ls.append(op % f if op.count("%d") == 1 else op % (f, f))
+        ls.append("sappv %d S:%d" % (x, e))
+        ls.append("sswap %d %d" % (e, x)); ls.append("sswap %d %d" % (e, x))
+    ls += ["sdetach %d" % d, "sdel %d" % t]
+    return (cid, ls)
+
+
+def bufless_cases(maxlen=2):
+    out = []
+    for ct in ("1", "2", "4", "w"):
+        alpha = ALPHA if ct == "1" else WALPHA[ct]
+        for i, a in enumerate(small_strings(maxlen, alpha[:3])):
+            out.append(bufless_case("nobuf%s-%d" % (ct, i), a, ct))
+    return out
 
 
 def wide_strings(ct, maxlen):
@@ -220,6 +272,7 @@ class Rand:
         self.bufs = []      # byte lists
         self.strs = []      # byte list or None (destroyed)
         self.views = []     # (safe, bytes)   safe = does not point into a string's buffer
+        self.nobuf = set()  # strings that own no buffer: default-constructed or detached, not modified since
 
     def rbytes(self, n):
         r = self.rng
@@ -283,7 +336,10 @@ class Rand:
         return "N", []
 
     def live(self):
-        return [i for i, s in enumerate(self.strs) if s is not None]
+        live = [i for i, s in enumerate(self.strs) if s is not None]
+        # bias: strings that own no buffer (default-constructed / detached and untouched since) are preferred operands
+        nb = [i for i in live if i in self.nobuf]
+        return live + nb * 3 if nb else live
 
     def cstr(self):
         """-> (buf, off, bytes) of a NUL-terminated position, or None"""
@@ -358,7 +414,7 @@ class Rand:
                 mx = r.choice([len(rest) + 3, MAX64, mx])
             L.append("nlen %d %d %d" % (b, off, mx))
         elif kind == "snew":
-            L.append("snew"); self.strs.append([])
+            L.append("snew"); self.strs.append([]); self.nobuf.add(len(self.strs) - 1)
         elif kind == "spl":
             b = r.randrange(len(self.bufs)); n = len(self.bufs[b])
             off = r.randrange(n + 1); ln = n - off if r.random() < 0.5 else r.randrange(n - off + 1)
@@ -370,7 +426,7 @@ class Rand:
             n = r.choice([0, 1, 3, 17]); c = r.randrange(top + 1)
             L.append("sfill %d %d" % (n, c)); self.strs.append([c] * n)
         elif not live:
-            L.append("snew"); self.strs.append([])
+            L.append("snew"); self.strs.append([]); self.nobuf.add(len(self.strs) - 1)
         elif kind == "scopy":
             k = r.choice(live); L.append("scopy %d" % k); self.strs.append(list(self.strs[k]))
         elif kind == "smove":       # at HEAD a move is a copy; the source is used again by the following ops
@@ -378,7 +434,7 @@ class Rand:
             self.use_again(k)
         elif kind == "smovea":
             d, s = r.choice(live), r.choice(live)
-            L.append("smovea %d %d" % (d, s)); self.strs[d] = list(self.strs[s])
+            L.append("smovea %d %d" % (d, s)); self.strs[d] = list(self.strs[s]); self.nobuf.discard(d)
             self.use_again(s)
         elif kind in ("sbyval", "sbyvalm"):
             k = r.choice(live); L.append("%s %d" % (kind, k))
@@ -388,10 +444,10 @@ class Rand:
             L.append("traits")
         elif kind == "sassign":
             d, s = r.choice(live), r.choice(live)
-            L.append("sassign %d %d" % (d, s)); self.strs[d] = list(self.strs[s]); self.kill_views()
+            L.append("sassign %d %d" % (d, s)); self.strs[d] = list(self.strs[s]); self.kill_views(); self.nobuf.discard(d)
         elif kind == "sresize":
             k = r.choice(live); n = r.choice([0, 1, len(self.strs[k]), len(self.strs[k]) + 1, max(0, len(self.strs[k]) - 1), r.randrange(30)])
-            L.append("sresize %d %d" % (k, n))
+            L.append("sresize %d %d" % (k, n)); self.nobuf.discard(k)
             s = self.strs[k]
             self.strs[k] = (s + [int('cd' * self.w, 16)] * n)[:n]
         elif kind == "splusv":
@@ -404,10 +460,10 @@ class Rand:
             k = r.choice(live); a, ab = self.vexp()
             if r.random() < 0.15:
                 a, ab = "S:%d" % k, self.strs[k]
-            L.append("sappv %d %s" % (k, a)); self.strs[k] = self.strs[k] + list(ab)
+            L.append("sappv %d %s" % (k, a)); self.strs[k] = self.strs[k] + list(ab); self.nobuf.discard(k)
         elif kind in ("sappc", "spush"):
             k = r.choice(live); c = r.choice([0, 0x61, r.randrange(top + 1)])
-            L.append("%s %d %d" % (kind, k, c)); self.strs[k] = self.strs[k] + [c]
+            L.append("%s %d %d" % (kind, k, c)); self.strs[k] = self.strs[k] + [c]; self.nobuf.discard(k)
         elif kind == "scmp":
             a, b = r.choice(live), r.choice(live)
             L.append("scmp %d %d" % (a, b))
@@ -423,15 +479,20 @@ class Rand:
         elif kind == "hs":
             L.append("hs %d" % r.choice(live))
         elif kind == "sdetach":
-            k = r.choice(live); L.append("sdetach %d" % k); self.strs[k] = []
+            k = r.choice(live); L.append("sdetach %d" % k); self.strs[k] = []; self.nobuf.add(k)
         elif kind == "sswap":
             a, b = r.choice(live), r.choice(live)
             L.append("sswap %d %d" % (a, b)); self.strs[a], self.strs[b] = self.strs[b], self.strs[a]
+            ina, inb = a in self.nobuf, b in self.nobuf
+            self.nobuf.discard(a); self.nobuf.discard(b)
+            if inb: self.nobuf.add(a)
+            if ina: self.nobuf.add(b)
         elif kind == "sdel":
             if r.random() < 0.5:
                 k = r.choice(live); L.append("sdel %d" % k); self.strs[k] = None
 
     def use_again(self, k):
+        self.nobuf.discard(k)
         """keep using a moved-from string: size/data (every op prints them), copy, +=, push_back, resize, compare, hash"""
         r = self.rng
         L = self.lines
